@@ -4,6 +4,7 @@ package main
 // generating proof obligations.
 
 import (
+	"os"
 	"fmt"
 	"go/constant"
 	"go/token"
@@ -64,6 +65,7 @@ type State struct {
 	dead    bool
 	callLog []string
 	defined map[string]bool // ground atoms whose definition has been assumed on this path
+	callOrd map[string]int  // per-path count of executed calls by frame depth and callee (dynamic call ordinals)
 }
 
 func (s *State) clone() *State {
@@ -93,6 +95,12 @@ func (s *State) clone() *State {
 	n.pc = append([]*Term(nil), s.pc...)
 	n.trace = append([]string(nil), s.trace...)
 	n.callLog = append([]string(nil), s.callLog...)
+	if s.callOrd != nil {
+		n.callOrd = make(map[string]int, len(s.callOrd))
+		for k, v := range s.callOrd {
+			n.callOrd[k] = v
+		}
+	}
 	if s.defined != nil {
 		n.defined = make(map[string]bool, len(s.defined))
 		for k := range s.defined {
@@ -843,6 +851,20 @@ func (x *Exec) loopHead(st *State, fr *Frame, b *ssa.BasicBlock, pred *ssa.Basic
 		}
 	}
 	eff := x.loopEffects(st, fr, b)
+	if os.Getenv("GOVC_DEBUG_DRY") != "" {
+		var gk, ek []string
+		for k := range st.ghost {
+			if strings.HasPrefix(k, "ghost!") {
+				gk = append(gk, k+"="+st.ghost[k].String())
+			}
+		}
+		for k := range eff.ghost {
+			ek = append(ek, k)
+		}
+		sort.Strings(gk)
+		sort.Strings(ek)
+		fmt.Fprintf(os.Stderr, "[loophead] %s loop %d ghosts=%v effghost=%v\n", relName(fr.fn), ord, gk, ek)
+	}
 	x.havoc(st, fr, eff)
 	x.havocShared(st, fr)
 	env = x.envFor(st, fr)
@@ -1006,6 +1028,9 @@ func (x *Exec) dryBlock(st *State, fr *Frame, b *ssa.BasicBlock, pred *ssa.Basic
 		if r := recover(); r != nil {
 			// a register of another branch was missing in the abstract visit:
 			// be conservative
+			if os.Getenv("GOVC_DEBUG_DRY") != "" {
+				fmt.Fprintf(os.Stderr, "[dry] block %d of %s: %v\n", b.Index, relName(fr.fn), r)
+			}
 			x.dryEff.all = true
 		}
 	}()
@@ -1057,6 +1082,14 @@ func (x *Exec) dryBlock(st *State, fr *Frame, b *ssa.BasicBlock, pred *ssa.Basic
 }
 
 func (x *Exec) havoc(st *State, fr *Frame, eff *effects) {
+	if os.Getenv("GOVC_DEBUG_DRY") != "" {
+		var ks []string
+		for k := range eff.heap {
+			ks = append(ks, k)
+		}
+		sort.Strings(ks)
+		fmt.Fprintf(os.Stderr, "[havoc] %s all=%v heap=%v\n", relName(fr.fn), eff.all, ks)
+	}
 	for al := range eff.locals {
 		cur, ok := st.locals[al]
 		if !ok {
@@ -1069,6 +1102,13 @@ func (x *Exec) havoc(st *State, fr *Frame, eff *effects) {
 			st.heap[k] = x.E.fresh("hv"+sanitize(k), a.S)
 		}
 		for k := range st.ghost {
+			if _, declared := x.E.ghostDecls[strings.TrimPrefix(k, "ghost!")]; declared && strings.HasPrefix(k, "ghost!") {
+				if !eff.ghost[k] {
+					continue // specification variables change only by `set` and `modifies`
+				}
+				st.ghost[k] = x.E.fresh("gh"+sanitize(k), st.ghost[k].S)
+				continue
+			}
 			if !strings.HasPrefix(k, "dec!") {
 				delete(st.ghost, k)
 			}
